@@ -613,7 +613,7 @@ func (s *Stack) RtResponse(p *Proc, who, idClass string, body []byte, hdr map[st
 	id := s.ResolveID(idClass)
 	lbl := s.noteBody(body, "")
 	cid := s.Rec.Emit(a, "RespCall", "who", a, "gen", gen(p), "id", idClass, "reqid", id, "size", len(body), "body", lbl,
-		"slow", hdr["X-Verif-Slow-Body"])
+		"slow", hdr["X-Verif-Slow-Body"], "abort", hdr["X-Verif-Abort-Body"] != "")
 	r := s.do(p, "POST", "/2018-06-01/runtime/invocation/"+id+"/response", hdr, body)
 	s.Rec.Emit(a, "RespRet", "cid", cid, "who", a, "gen", gen(p), "id", idClass, "reqid", id, "status", r.Status, "errType", r.ErrType, "net", r.NetErr)
 	return r
@@ -631,7 +631,7 @@ func (s *Stack) RtError(p *Proc, who, idClass, errType string, body []byte, hdr 
 	}
 	lbl := s.noteBody(body, "")
 	cid := s.Rec.Emit(a, "ErrCall", "who", a, "gen", gen(p), "id", idClass, "reqid", id, "size", len(body), "errType", errType, "body", lbl,
-		"slow", hdr["X-Verif-Slow-Body"])
+		"slow", hdr["X-Verif-Slow-Body"], "abort", hdr["X-Verif-Abort-Body"] != "")
 	r := s.do(p, "POST", "/2018-06-01/runtime/invocation/"+id+"/error", h, body)
 	s.Rec.Emit(a, "ErrRet", "cid", cid, "who", a, "gen", gen(p), "id", idClass, "reqid", id, "status", r.Status, "errType", r.ErrType, "net", r.NetErr)
 	return r
